@@ -114,3 +114,37 @@ theorem run_rules (prog : Nat → List (Act ρ σ)) (g : G ρ σ) (sched : List 
   | cons t ts ih => simp only [List.foldl_cons]; rw [ih, step_rules]
 
 end YaraModel.Concurrent
+
+namespace YaraModel.Concurrent
+
+structure LInv (s : Lib) : Prop where
+  cnt : s.count = s.users.length
+  alive : s.alive = true ↔ 0 < s.count
+
+theorem lstep_inv (s : Lib) (e : LibEv) (h : LInv s) : LInv (lstep s e) := by
+  cases e with
+  | init u => exact ⟨by simp [lstep, h.cnt], by simp [lstep]⟩
+  | fin u =>
+    by_cases hm : u ∈ s.users
+    · have hl : 0 < s.users.length := List.length_pos_of_mem hm
+      have hc : 0 < s.count := by have := h.cnt; omega
+      have e1 : lstep s (.fin u) = { s with count := s.count - 1, alive := if s.count - 1 = 0 then false else s.alive, users := s.users.erase u } := by
+        simp [lstep, hm]
+      rw [e1]
+      refine ⟨by simp only [List.length_erase_of_mem hm, h.cnt], ?_⟩
+      simp only
+      by_cases hz : s.count - 1 = 0
+      · simp [hz]
+      · simp only [hz, ite_false]
+        constructor
+        · intro _; omega
+        · intro _; exact h.alive.mpr hc
+    · have e2 : lstep s (.fin u) = { s with finErrors := s.finErrors + 1 } := by simp [lstep, hm]
+      rw [e2]; exact ⟨h.cnt, h.alive⟩
+
+theorem lrun_inv (evs : List LibEv) (s : Lib) (h : LInv s) : LInv (evs.foldl lstep s) := by
+  induction evs generalizing s with
+  | nil => exact h
+  | cons e es ih => exact ih (lstep s e) (lstep_inv s e h)
+
+end YaraModel.Concurrent
